@@ -261,7 +261,12 @@ func runAuxOnce(c acase) (res result) {
 		case "blockPut":
 			err = conn.BlockPut(ctx, &api.NodeWithMeta{Cid: common.CidN(0), Data: auxBlock})
 		case "resolve":
-			ci, e := conn.Resolve(ctx, "/ipns/example.verif/some/sub/path")
+			// a path that has to be resolved by the daemon and whose own segments are CIDs, none of them the answer
+			rp := "/ipns/example.verif/some/" + common.CidN(4).String()
+			if c.variant%2 == 1 {
+				rp = "/ipfs/" + common.CidN(2).String() + "/a/" + common.CidN(4).String()
+			}
+			ci, e := conn.Resolve(ctx, rp)
 			err = e
 			if ci.Equals(common.CidN(1)) {
 				a = 1
